@@ -61,7 +61,26 @@ fn did(b: u8) -> DataId { DataId::from(vh::mk_id(b)) }
 #[kani::unwind(6)]
 #[kani::stub(std::backtrace::Backtrace::capture, crate::error::verif_harness::stub_backtrace_capture)]
 #[kani::stub(crate::backend::node::Node::name, stub_name)]
-pub(crate) fn c11_parent_match_file() {
+pub(crate) fn c11_parent_match_file() { match_steps::<1>(); }
+
+//@ harness: c11_parent_match_two_files
+//@ prop: C11
+//@ tier: thorough
+//@ timeout: 3000
+//@ mem: 20
+//@ unwindset: ^memcmp#0=34
+//@ kernel: as c11_parent_match_file, plus the cursor that Parent::p_node keeps between calls
+//@ bound: as c11_parent_match_file, followed by a second current file node with a later name ("b".."d") processed against the same Parent (cursor state left by the first call)
+//@ oracle: as c11_parent_match_file for both calls
+//@ stub: as c11_parent_match_file
+//@ outside: as c11_parent_match_file
+#[kani::proof]
+#[kani::unwind(6)]
+#[kani::stub(std::backtrace::Backtrace::capture, crate::error::verif_harness::stub_backtrace_capture)]
+#[kani::stub(crate::backend::node::Node::name, stub_name)]
+pub(crate) fn c11_parent_match_two_files() { match_steps::<2>(); }
+
+fn match_steps<const STEPS: usize>() {
     let pa = any_meta();
     let pc = any_meta();
     let bits: u8 = kani::any();
@@ -71,15 +90,26 @@ pub(crate) fn c11_parent_match_file() {
     let ignore_inode: bool = kani::any();
     let mut parent = Parent { tree_ids: Vec::new(), trees: vec![(Tree { nodes }, 0)], stack: Vec::new(), ignore_ctime, ignore_inode };
     let be = DecryptBackend::new(Arc::new(NullBe::new()) as Arc<dyn WriteBackend>, ModelKey);
+    let first: u8 = kani::any();
+    kani::assume(first < 4);
+    one_file(&mut parent, &be, &index, first, &pa, &pc, bits, ignore_ctime);
+    if STEPS == 2 {
+        // files arrive in name order
+        let second: u8 = kani::any();
+        kani::assume(second > first && second < 4);
+        one_file(&mut parent, &be, &index, second, &pa, &pc, bits, ignore_ctime);
+    }
+    std::mem::forget(parent); std::mem::forget(be);
+}
+
+fn one_file(parent: &mut Parent, be: &DecryptBackend<ModelKey>, index: &BitIndex, which: u8, pa: &Metadata, pc: &Metadata, bits: u8, ignore_ctime: bool) {
     let cur = any_meta();
-    let which: u8 = kani::any();
-    kani::assume(which < 4);
     let name = match which { 0 => "a", 1 => "b", 2 => "c", _ => "d" };
     let node = file_node(name, cur.clone(), None);
     let item = TreeType::Other((PathBuf::new(), node, ()));
-    let r = parent.process(&be, &index, item);
+    let r = parent.process(be, index, item);
     let (out_node, res) = match r { Ok(TreeType::Other((_, n, ((), res)))) => (n, res), _ => { assert!(false, "process failed"); return; } };
-    let p_meta = if which == 0 { Some((&pa, 1u8)) } else if which == 2 { Some((&pc, 2u8)) } else { None };
+    let p_meta = if which == 0 { Some((pa, 1u8)) } else if which == 2 { Some((pc, 2u8)) } else { None };
     match (&res, p_meta) {
         (ParentResult::Matched(()), Some((p, idb))) => {
             assert!(p.size == cur.size && p.mtime == cur.mtime);
@@ -87,23 +117,26 @@ pub(crate) fn c11_parent_match_file() {
             assert!((bits >> idb) & 1 == 1);
             // (compared element-wise: building a Vec for the comparison gave a spurious, non-replayable counterexample)
             assert!(out_node.content.as_ref().map_or(false, |c| c.len() == 1 && crate::id::verif_harness::id0(&crate::id::Id::from(*c[0])) == idb));
-            kani::cover!(true, "file reused from the parent");
+            witness_reused();
         }
         (ParentResult::Matched(()), None) => assert!(false, "matched a name the parent does not have"),
         (ParentResult::NotFound, Some((p, idb))) => {
             // found by name: NotFound is only reported when blobs are missing (re-read)
             assert!((bits >> idb) & 1 == 0);
             assert!(out_node.content.is_none());
-            kani::cover!(true, "parent blobs missing: file is read again");
+            witness_reread();
         }
         (ParentResult::NotFound, None) => { assert!(out_node.content.is_none()); }
         (ParentResult::NotMatched, Some((p, _))) => {
             assert!(out_node.content.is_none());
             // completeness where the statement is unambiguous: identical size, mtime, ctime and inode must match
             assert!(!(p.size == cur.size && p.mtime == cur.mtime && p.ctime == cur.ctime && p.inode == cur.inode));
-            kani::cover!(p.size != cur.size, "changed size is detected");
+            witness_changed(p.size != cur.size);
         }
         (ParentResult::NotMatched, None) => assert!(false, "NotMatched for a name the parent does not have"),
     }
-    std::mem::forget(out_node); std::mem::forget(parent); std::mem::forget(be);
+    std::mem::forget(out_node);
 }
+#[inline(never)] fn witness_reused() { kani::cover!(true, "file reused from the parent"); }
+#[inline(never)] fn witness_reread() { kani::cover!(true, "parent blobs missing: file is read again"); }
+#[inline(never)] fn witness_changed(c: bool) { kani::cover!(c, "changed size is detected"); }
